@@ -24,7 +24,7 @@ def objdump_batch(cases, syntax='intel', raw=False):
             f.write(c.ljust(SLOT, b'\x90'))
     try:
         args = ['objdump', '-D', '-z', '-b', 'binary', '-m', 'i386', '--no-show-raw-insn']
-        args += ['-M', 'intel'] if syntax == 'intel' else ['-M', 'att'] if syntax == 'att' else []
+        args += ['-M', 'intel'] if syntax == 'intel' else ['-M', 'att'] if syntax == 'att' else ['-M', 'att,suffix'] if syntax == 'att-suffix' else []
         r = subprocess.run(args + [path], stdout=subprocess.PIPE, stderr=subprocess.PIPE)
         if r.returncode != 0:
             core.harness_error('objdump failed: %s' % r.stderr.decode()[-300:])
